@@ -151,6 +151,14 @@ def translate():
     fmt = const_value(mc['KD_BUF_FORMAT'], 'KD_BUF_FORMAT', str)
     consts['KD_BUF_FORMAT'] = ('str', 'KD_BUF_FORMAT', fmt)
     out.append(f'Definition KD_BUF_FORMAT : string := {coq_string(fmt)}.')
+    # any other module constant with a literal int / str value may be used by from_kd_buf (named formats, masks)
+    for name, node in mc.items():
+        if name in consts or not isinstance(node, ast.Constant) or isinstance(node.value, bool):
+            continue
+        if isinstance(node.value, int) and node.value >= 0:
+            consts[name] = ('int', coq_N(node.value), node.value)            # inlined at its uses
+        elif isinstance(node.value, str):
+            consts[name] = ('str', coq_string(node.value), node.value)
     # the namedtuple must still have the model's fields in the model's order
     nt = mc.get('Kevent')
     ok = (isinstance(nt, ast.Call) and dotted(nt.func) == 'namedtuple' and len(nt.args) == 2
